@@ -6,9 +6,12 @@ import (
 	"context"
 	"flag"
 	"fmt"
+	"net/http"
+	"net/http/httptest"
 	"os"
 	"path/filepath"
 	"strings"
+	"sync/atomic"
 	"time"
 
 	"github.com/allegro/bigcache/v3"
@@ -107,6 +110,9 @@ type vkConfigOpts struct {
 	// LegacyCidToOffset: path of a deprecated (size-less) cid-to-offset index; the config then names it under
 	// indexes.cid_to_offset and leaves cid_to_offset_and_size unset (Config.IsDeprecatedIndexes()).
 	LegacyCidToOffset string
+	// RemoteBase: when set (e.g. "http://127.0.0.1:port"), the CAR and every index FILE are named by
+	// RemoteBase + absolute path, i.e. served over HTTP by vkServeFiles (the gsfa directory stays local)
+	RemoteBase string
 }
 
 // writeConfig writes an epoch config YAML and returns its path.
@@ -120,6 +126,19 @@ func (e *vEpoch) writeConfig(o vkConfigOpts) string {
 	car := o.CarURI
 	if car == "" {
 		car = e.CarPath
+	}
+	if o.RemoteBase != "" {
+		inner := get
+		get = func(role, def string) string {
+			v := inner(role, def)
+			if role == "gsfa" || v == "" || strings.HasPrefix(v, "http") {
+				return v
+			}
+			return o.RemoteBase + v
+		}
+		if !strings.HasPrefix(car, "http") {
+			car = o.RemoteBase + car
+		}
 	}
 	var b strings.Builder
 	fmt.Fprintf(&b, "version: 1\nepoch: %d\ndata:\n  car:\n    uri: %q\nindexes:\n", e.Truth.Epoch, car)
@@ -292,6 +311,21 @@ func vkPadForTxPayload(target int) (int, bool) {
 	}
 	return 0, false
 }
+
+// vkServeFiles starts a loopback HTTP file server rooted at the filesystem root (Range requests supported by
+// net/http's file server): an epoch's files can then be named "base + absolute path" in a config.
+func vkServeFiles() (base string, stop func()) {
+	fs := http.FileServer(http.Dir("/"))
+	srv := httptest.NewServer(http.HandlerFunc(func(w http.ResponseWriter, r *http.Request) {
+		vkServedRequests.Add(1)
+		fs.ServeHTTP(w, r)
+	}))
+	return srv.URL, srv.Close
+}
+
+// vkServedRequests counts the HTTP requests answered by vkServeFiles servers (evidence that remote
+// configurations really went over HTTP).
+var vkServedRequests atomic.Int64
 
 // vkRequestWatchdog, when non-zero, bounds every request driven through vkHTTP / vkWatch: the call runs in
 // a goroutine of its own and a call that has not returned after this long is issued a second time; only
